@@ -16,6 +16,7 @@ pub fn err_json(e: &LinearizationError) -> Value {
         LinearizationError::UnimplementedExpression(_) => json!({"kind":"UnimplementedExpression"}),
         LinearizationError::NonBinaryLogicOperand(_) => json!({"kind":"NonBinaryLogicOperand"}),
         LinearizationError::NonFiniteConstant(_) => json!({"kind":"NonFiniteConstant"}),
+        LinearizationError::InvalidDomain { variable, .. } => json!({"kind":"InvalidDomain","name":variable}),
         LinearizationError::MissingFiniteBounds { variables, expression, .. } => {
             let mut vs = vec![];
             collect_vars(expression, &mut vs);
